@@ -93,8 +93,14 @@ structure Ref where
 def reference (line : String) : Option Ref := do
   match ← Sexp.parse line with
   | .list [.atom "direct", c, .list acts] =>
-      let (os, d) ← runDirect (← parseCmd c) false (← acts.mapM parseAction)
-      pure ⟨os, [], d.w, none, none⟩
+      let c ← parseCmd c
+      if Driver.Rt.isTaskCmd c then
+        -- a `(task I*)` command: the reference also says how many task futures are alive after every step (`g`)
+        let (os, d) ← runDirectG c false (← acts.mapM parseAction)
+        pure ⟨os.map fun o => { o.1 with tail := s!"{o.1.tail} g{o.2}" }, [], d.w, none, none⟩
+      else
+        let (os, d) ← runDirect c false (← acts.mapM parseAction)
+        pure ⟨os, [], d.w, none, none⟩
   | .list [.atom "core", .list prog, .list acts] =>
       let (os, h) ← runCore (← parseProg prog) false (← acts.mapM parseAction)
       pure ⟨os, h.k.log, h.k.w, none, some h.k⟩
@@ -246,7 +252,8 @@ def rawChecks (prop : String) (line implLine : String) : Option String :=
     | "C07" => firstSome [
         guard stepsAligned "steps-misaligned",
         guard (tokEq "d") "done-flag-differs",
-        guard (tokEq "t") "live-tasks-differ"]
+        guard (tokEq "t") "live-tasks-differ",
+        guard (tokEq "g") "task-future-not-dropped"]
     | "C09" => firstSome [
         guard stepsAligned "steps-misaligned",
         guard effsEq "decoded-requests-differ",
@@ -266,6 +273,7 @@ def rawChecks (prop : String) (line implLine : String) : Option String :=
         guard (tokEq "R[") "registry-occupancy-differs",
         guard (tokEq "s") "executor-occupancy-differs",
         guard (tokEq "t") "command-occupancy-differs",
+        guard (tokEq "g") "task-future-not-dropped",
         fun _ => retention r,
         guard (!abortedRetained r) "aborted-hosted-command-retained"]
     | _ => some "unknown-property"
